@@ -46,10 +46,18 @@ type Extents struct {
 // Duplicate creates a duplicate Extents.
 func (ext *Extents) Duplicate() Extents {
 	var dup Extents
-	dup.MinPoint = ext.MinPoint.Duplicate()
-	dup.MaxPoint = ext.MaxPoint.Duplicate()
-	dup.MinIndex = ext.MinIndex.DuplicateChunkIndexer()
-	dup.MaxIndex = ext.MaxIndex.DuplicateChunkIndexer()
+	if ext.MinPoint != nil {
+		dup.MinPoint = ext.MinPoint.Duplicate()
+	}
+	if ext.MaxPoint != nil {
+		dup.MaxPoint = ext.MaxPoint.Duplicate()
+	}
+	if ext.MinIndex != nil {
+		dup.MinIndex = ext.MinIndex.DuplicateChunkIndexer()
+	}
+	if ext.MaxIndex != nil {
+		dup.MaxIndex = ext.MaxIndex.DuplicateChunkIndexer()
+	}
 	return dup
 }
 
